@@ -20,20 +20,43 @@ type LoudList struct {
 	label string
 }
 
-func (l *LoudList) String() string                 { return "batch<" + l.label + ">" }
-func (l *LoudList) FormatString(indent int) string { return "batch<" + l.label + fmt.Sprint(indent) + ">" }
-func (l *LoudList) Count() int                     { return l.List.Count() - 1 }
-func (l *LoudList) Empty() bool                    { return l.List.Count() <= 1 }
+func (l *LoudList) String() string { return "batch<" + l.label + ">" }
+func (l *LoudList) FormatString(indent int) string {
+	return "batch<" + l.label + fmt.Sprint(indent) + ">"
+}
+func (l *LoudList) Count() int  { return l.List.Count() - 1 }
+func (l *LoudList) Empty() bool { return l.List.Count() <= 1 }
+
+// ForEach of a batch goes from the newest element to the oldest.
+func (l *LoudList) ForEach(f func(int, any)) at.List {
+	for i := l.List.Count() - 1; i >= 0; i-- {
+		f(i, l.List.Get(i))
+	}
+	return l
+}
 
 type LoudObject struct {
 	at.Object
 	label string
 }
 
-func (o *LoudObject) String() string                 { return "record<" + o.label + ">" }
-func (o *LoudObject) FormatString(indent int) string { return "record<" + o.label + fmt.Sprint(indent) + ">" }
-func (o *LoudObject) Count() int                     { return o.Object.Count() + 1 }
-func (o *LoudObject) Empty() bool                    { return false }
+func (o *LoudObject) String() string { return "record<" + o.label + ">" }
+func (o *LoudObject) FormatString(indent int) string {
+	return "record<" + o.label + fmt.Sprint(indent) + ">"
+}
+func (o *LoudObject) Count() int  { return o.Object.Count() + 1 }
+func (o *LoudObject) Empty() bool { return false }
+
+// Keys of a record lists every other key only, Values nothing.
+func (o *LoudObject) Keys() at.List {
+	all := o.Object.Keys()
+	out := at.NewList()
+	for i := 0; i < all.Count(); i += 2 {
+		out.Add(all.Get(i))
+	}
+	return out
+}
+func (o *LoudObject) Values() at.List { return at.NewList() }
 
 // loud wraps a plain container into the matching structure and registers it; embedded is the library container inside.
 func loud(plain any, label string) (outer any, embedded any) {
@@ -92,6 +115,6 @@ func overridingHolders(c *fw.Ctx, judge func(real any, tree *spec.Spec, where st
 			want, where = spec.ObjV("a", tree, "b", spec.ListV(tree2)), "NewObject().Set(\"a\", <structure>).Set(\"b\", NewList().Add(<second structure>))"
 		}
 		c.Count("holders_of_structures_with_observers_of_their_own")
-		judge(real, want, where+"; the structure's type redefines String, FormatString, Count and Empty; it embeds "+spec.Trunc(tree.Canon(), 600), r)
+		judge(real, want, where+"; the structure's type redefines String, FormatString, Count, Empty and ForEach (lists) or Keys and Values (objects); it embeds "+spec.Trunc(tree.Canon(), 600), r)
 	})
 }
